@@ -5,7 +5,7 @@ cd /verif
 for d in seeded/C*-m*; do
   s=$(basename $d); id=${s%%-*}
   git -C /repo status --porcelain --untracked-files=no | grep -q . && { echo "/repo dirty"; exit 2; }
-  git -C /repo apply $d/patch.diff || { echo "$s	$id	APPLY-FAILED" >> seeded/RESULTS.tsv; continue; }
+  git -C /repo apply /verif/$d/patch.diff || { echo "$s	$id	APPLY-FAILED" >> seeded/RESULTS.tsv; continue; }
   ./check $id --tier quick > /tmp/seed/all_$s.log 2>&1; rc=$?
   git -C /repo checkout -q HEAD -- .
   first=$(grep -A1 '^VIOLATION' /tmp/seed/all_$s.log | sed -n 2p | cut -c1-200)
